@@ -453,6 +453,20 @@ impl Memfs {
                 // copy of the same entry which should be fast as we still have a lock
                 let src = self._clone_entry(guard, src.path())?;
 
+                // A followed link that points at another link is recreated as a link to that
+                // link's target, a clone of the entry would keep a relative target that is only
+                // correct from the original location
+                if src.is_symlink() {
+                    if dst_path != src.path() {
+                        if !guard.contains_entry(&dst_path.dir()?) {
+                            let mode = dir_mode.or(Some(self._clone_entry(guard, src.path().dir()?)?.mode()));
+                            self._mkdir_m(guard, &dst_path.dir()?, mode)?;
+                        }
+                        self._symlink(guard, dst_path, src.alt())?;
+                    }
+                    continue;
+                }
+
                 // Create the directory using the given mode or src mode
                 if src.is_dir() {
                     self._mkdir_m(guard, &dst_path, dir_mode.or(Some(src.mode())))?;
